@@ -50,6 +50,7 @@ def calib_tie_text(pid):
         t += "Lemma tie_exit : src_exit = exit_actions. Proof. reflexivity. Qed.\n"
         t += "Lemma tie_disable_extensions : src_disable_extensions_restores = true. Proof. reflexivity. Qed.\n"
         t += 'Lemma tie_inplace_ops : src_inplace_ops = ["aten.copy_"]. Proof. reflexivity. Qed.\n'
+        t += 'Lemma tie_op_inplace_arith : src_op_inplace_arith = []. Proof. reflexivity. Qed.\n'
         for n in PURE:
             t += f"Lemma tie_effects_{n} : src_effects_{n} = []. Proof. reflexivity. Qed.\n"
         t += 'Lemma tie_effects_freeze : src_effects_freeze = ["store self.weight"]. Proof. reflexivity. Qed.\n'
